@@ -454,12 +454,6 @@ func (c *Ctx) checkNormalPredicate(info *types.Info, fd *ast.FuncDecl, prefix st
 				if samePredOnRange(p, func(v int64) bool { return v == 0 }, -2, 3) {
 					return "F", true, true
 				}
-				if samePredOnRange(p, func(v int64) bool { return v > 0 }, 0, 3) {
-					return "F", false, true
-				}
-				if samePredOnRange(p, func(v int64) bool { return v < 1 }, 0, 3) {
-					return "F", true, true
-				}
 			}
 		}
 		if id, ok := e.(*ast.Ident); ok {
@@ -500,7 +494,7 @@ func (c *Ctx) checkNormalPredicate(info *types.Info, fd *ast.FuncDecl, prefix st
 	atoms := []string{"A", "O", "F", "S"}
 	tt, unk := truthTable(pred.Cond, atoms, atom)
 	if len(unk) > 0 {
-		c.Undecided("R04c", prefix+"runModeNormal:predicate", pred.Cond.Pos(), "leaf %q of the skip predicate is not one of: procs[i].OperatorLogicAnd, procs[i].OperatorLogicOr, a comparison of procs[i-1].ExitNum with 0, the skipPipeline flag", unk[0])
+		c.Undecided("R04c", prefix+"runModeNormal:predicate", pred.Cond.Pos(), "leaf %q of the skip predicate is not one of: procs[i].OperatorLogicAnd, procs[i].OperatorLogicOr, a test of procs[i-1].ExitNum that is equivalent to `!= 0` / `== 0` on all integers (negative exit numbers — `return -2`, the and/or builtins — are failures in normal mode), the skipPipeline flag", unk[0])
 		return
 	}
 	bad := ""
